@@ -281,9 +281,13 @@ pub fn run_history(line: &str, with_diff: bool) -> String {
         // UNWIND as first op: the whole lifetime runs inside a destructor while the thread is unwinding from an earlier panic
         // (a fixture that uses an injector in its tear-down after a failed assertion); nothing the library does may depend on that
         // THREAD as first op: the whole lifetime runs on a freshly spawned thread (joined before the boundary is observed)
+        // RXDENY as first op: for the whole lifetime (scope exit included) the environment refuses every mprotect that asks for execute
+        // without write permission (an execmod-style policy); the library never needs one, so nothing may change
         let unwinding = ops.first().map(|s| s.as_str()) == Some("UNWIND");
         let threaded = ops.first().map(|s| s.as_str()) == Some("THREAD");
-        let ops: Vec<String> = if unwinding || threaded { ops[1..].to_vec() } else { ops };
+        let rxdeny = ops.first().map(|s| s.as_str()) == Some("RXDENY");
+        let ops: Vec<String> = if unwinding || threaded || rxdeny { ops[1..].to_vec() } else { ops };
+        interpose::DENY_RX.store(rxdeny, SeqCst);
         let ops = &ops;
         interpose::RECORD.store(true, SeqCst);
         let mut body_out = String::new();
@@ -300,6 +304,7 @@ pub fn run_history(line: &str, with_diff: bool) -> String {
             }
             drop(inj);
         })); });
+        interpose::DENY_RX.store(false, SeqCst);
         if unwinding { PANICS.fetch_sub(1, SeqCst); }          // the earlier panic is the harness's own
         interpose::RECORD.store(false, SeqCst);
         let res = match &r { Ok(()) => "normal".to_string(), Err(e) => { let m = util::panic_msg(e); let c = util::classify(&m);
